@@ -434,8 +434,8 @@ def mpp_judge(lines, recs, info, hfb):
         if t[0] in ("failback", "claim", "claimknown") and last_claimable:
             last_claimable["live"] = False
         if last_claimable and any(parts[k]["state"] != "held" for k in last_claimable["parts"]) and t[0] not in ("claim", "claimknown"):
-            if r["height"] < last_claimable["deadline"] and t[0] == "block" and last_claimable.get("live", True):
-                bad("a part of a claimable payment was failed back by a block below the advertised deadline")
+            if r["height"] < last_claimable["deadline"] and t[0] in ("block", "tick") and last_claimable.get("live", True):
+                bad("a part of a claimable payment was failed back by a %s below the advertised deadline" % ("block" if t[0] == "block" else "timer tick"))
             last_claimable["live"] = False
     # at the end of the script (ticks and blocks past every expiry buffer) nothing may be held
     for k, p in parts.items():
